@@ -431,7 +431,10 @@ def run(w: World, rep: Report):
         h = w.repo.func(fr.module, fr.name)
         toks = {tuple(norm_token(r) for r in s) for s in tape_reads(w, h)}
         if len(toks) != 1:
-            raise AnalysisError(f'{h.name}: tape-read shape differs between paths')
+            rep.check('C11.R2', f'compiler|{name}|shape', False, file='tapescript/functions.py', line=h.node.lineno,
+                      why=f'{h.name} consumes different operand bytes on different normal paths ({sorted(toks)}): the '
+                      f'encoding the compiler emits is over- or under-read on one of them')
+            continue
         vm_shapes[name] = list(toks)[0]
     nop_h = w.repo.func(w.nop.module, w.nop.name)
     nop_shape = list({tuple(norm_token(r) for r in s) for s in tape_reads(w, nop_h)})[0]
